@@ -52,6 +52,11 @@ def gen(ctx):
         else:
             for k in (0, 3):
                 yield Case("STOP", "%s %s mid %d" % (run, handle, k), tags=("stop-mid",))
+    # a stop after a LONG quiet period on a transport whose receives fail quickly (2 ms): hundreds of failed receives in a row
+    # must not make the loop any slower to notice the request
+    for run, handle in (("inline", "caller"), ("spawn", "caller"), ("spawn", "internal")):
+        for k in ((300, 1300, 2600) if ctx.thorough else (1300,)):
+            yield Case("STOP", "%s %s quiet %d" % (run, handle, k), tags=("stop-quiet",))
     # the bundled transports themselves (every constructor): a stop requested while nothing arrives
     for kc in ("unix new", "unix skbuf", "unix skbufsz", "chan b"):
         yield Case("STOPX", kc, tags=("stop-real-transport",))
